@@ -118,6 +118,11 @@ func (C02) Run(tp *tape.Tape) core.Result {
 		step("coll = (it) -> {\nr = []\nfor e <- it() {\nr = r + [e]\n}\nr\n}") {
 		goto done
 	}
+	// the value of a yield whose operand is a plain global: it is the value the global had when the
+	// generator yielded, whatever the loop body assigned before the generator was resumed
+	if step("gecho = () -> yield gqa") || step("gnv = (n) -> {\ni = 0\nwhile i < n {\nv = gecho()\nwrite(\"V\" + toa(v) + \",\" + toa(gqa) + \";\")\ni = i + 1\n}\n}") {
+		goto done
+	}
 	if step("gqa = 3") || step("gqb = 1") || step("gng = (n) -> {\ni = 0\nwhile i < gqa {\nwrite(\"Y\" + toa(i) + \";\")\nyield i + n\nwrite(\"R\" + toa(gqa) + \",\" + toa(gqb) + \";\")\ni = i + gqb\n}\n}") {
 		goto done
 	}
@@ -190,7 +195,9 @@ func (C02) Run(tp *tape.Tape) core.Result {
 					body += fmt.Sprintf("\nif qg == %d {\ngqb = gqb + 1\n}", tp.Draw(3))
 				}
 				v := "for qg <- gng(" + fmt.Sprint(tp.Draw(3)) + ") {\n" + body + "\n}"
-				if tp.Bool() { // the same inside a function: globals are still shared, locals are not
+				if tp.Draw(3) == 0 { // value of a yield of a plain global, re-read after the body changed it
+					v = fmt.Sprintf("for qg <- gnv(%d) {\nwrite(\"B\" + toa(qg) + \";\")\ngqa = gqa + 100\n}", 2+tp.Draw(3))
+				} else if tp.Bool() { // the same inside a function: globals are still shared, locals are not
 					v = "{\nfq = () -> {\ns = 0\nfor qg <- gng(0) {\ns = s + qg\nwrite(\"B\" + toa(qg) + \";\")\n}\ns\n}\nfq()\n}"
 				}
 				r.Inc("F4.body_changes_globals_read_by_running_generator", 1)
